@@ -1,8 +1,101 @@
+"""python3-vt side of the concrete replay: build the request from the solver model and the contract, run e3_call.py under /venv/bin/python."""
+import os
+import sys
+import json
+import subprocess
+import tempfile
+
+VERIF = os.path.dirname(os.path.dirname(os.path.abspath(__file__)))
+REPO = os.environ.get("VERIF_REPO", "/repo")
+VENV_PY = "/venv/bin/python"
+
+
+def _ty_json(ty):
+    from .spec import FIELD_TYPES
+    if isinstance(ty, str):
+        return ty
+    if ty[0] == "Arr":
+        return ["Arr", ty[1]] + ([ty[2]] if len(ty) > 2 and isinstance(ty[2], int) else [])
+    if ty[0] == "Obj":
+        ft = {k: _ty_json(v) for k, v in FIELD_TYPES.get(ty[1], {}).items() if k != "*"}
+        return ["Obj", ty[1], ft]
+    return "Opaque"
+
+
 def try_concrete_replay(key, ob, res):
-    return dict(confirmed=False, how="concrete replay bridge not available for this function")
+    from .spec import REGISTRY
+    c = REGISTRY.by_key[key]
+    if c.loops:
+        return dict(confirmed=False, how="function has contract-cut loops: a counter-model of an inductive step is not an input of the function")
+    model = res.get("model") or {}
+    arrays = res.get("arrays") or {}
+    name = ob["name"]
+    case = {}
+    if "[case" in name:
+        ci = int(name.split("[case")[1].split("]")[0])
+        case = c.cases[ci]
+    vary, copies, pre, clause = [], [""], [], ob.get("note", "")
+    if ob["kind"] == "relational":
+        eid = name.split(".relational.")[1].split("|")[0]
+        for rel in c.options.get("relational", ()):
+            for e, text in rel["post"]:
+                if e == eid:
+                    vary, copies, pre, clause = list(rel["vary"]), ["_1", "_2"], [rel["pre"]], text
+    elif ob["kind"] == "ensures":
+        eid = name.split(".ensures.")[1].split("|")[0]
+        eid = eid.rsplit(".r", 1)[0] if eid.rsplit(".r", 1)[-1].isdigit() else eid
+        for e, text in c.ensures:
+            if e == eid:
+                clause = text
+    req = dict(repo=REPO, file=c.file, function=c.name, params=[(p, _ty_json(t)) for p, t in c.params.items()], case=case, vary=vary, copies=copies,
+               returns=[r[0] for r in (c.returns or [])], model=model, arrays=arrays, kind=ob["kind"], clause=clause, pre=pre,
+               harness_src=c.options.get("harness_src"), harness_imports=c.options.get("harness_imports"))
+    with tempfile.NamedTemporaryFile("w", suffix=".json", delete=False) as f:
+        json.dump(req, f)
+        rp = f.name
+    try:
+        p = subprocess.run([VENV_PY, os.path.join(VERIF, "vc", "e3_call.py"), rp], capture_output=True, text=True, timeout=120)
+        out = json.loads(p.stdout.strip().splitlines()[-1]) if p.stdout.strip() else {"error": p.stderr[-2000:]}
+    except Exception as e:
+        out = {"error": repr(e)}
+    finally:
+        os.unlink(rp)
+    confirmed = False
+    how = ""
+    if "error" in out:
+        how = "replay call failed: " + str(out["error"])[:500]
+    elif ob["kind"] in ("ensures", "relational"):
+        if out.get("exception"):
+            how = "real function raised %s on the model's inputs" % out["exception"]
+        elif out.get("clause_holds") is False and out.get("pre_ok", True):
+            confirmed = True
+            how = "real function called on the model's inputs; the clause evaluates to False on the observed result (tolerance 1e-9)"
+        else:
+            how = "real function called on the model's inputs; the clause held there (counter-model spurious or inputs incomplete)"
+    else:
+        if out.get("exception") or out.get("nonfinite"):
+            confirmed = True
+            how = "real function called on the model's inputs: %s" % (out.get("exception") or "non-finite result")
+        else:
+            how = "real function called on the model's inputs without exception"
+    return dict(confirmed=confirmed, how=how, replay_request=req, observed=out)
 
 
 def rerun_replay(path):
-    import json
-    print(json.dumps(json.load(open(path)), indent=1)[:3000])
-    return 0
+    rec = json.load(open(path))
+    req = rec.get("replay_request")
+    if not req:
+        print("replay file carries no concrete input (no-failing-input-found); obligation: %s" % rec.get("obligation"))
+        print(json.dumps({k: rec[k] for k in ("obligation", "clause", "solver_verdict", "solver_attempts", "model") if k in rec}, indent=1)[:4000])
+        return 0
+    req["repo"] = REPO
+    with tempfile.NamedTemporaryFile("w", suffix=".json", delete=False) as f:
+        json.dump(req, f)
+        rp = f.name
+    p = subprocess.run([VENV_PY, os.path.join(VERIF, "vc", "e3_call.py"), rp], capture_output=True, text=True, timeout=120)
+    os.unlink(rp)
+    print(p.stdout)
+    out = json.loads(p.stdout.strip().splitlines()[-1])
+    bad = (out.get("clause_holds") is False) or bool(out.get("exception")) or bool(out.get("nonfinite"))
+    print("REPLAY: %s" % ("violation reproduced" if bad else "not reproduced"))
+    return 1 if bad else 0
